@@ -13,6 +13,7 @@ From Borno Require Import EvalInv.
 From Borno Require Import EvalFrame.
 From Borno Require Import EvalMeta.
 From Borno Require Import EvalOrder.
+From Borno Require Import ClosureExamples.
 
 (** calling a function binds the arguments, in order, to the parameters in a fresh activation whose parent is the closure scope (so recursion and re-entrant calls get separate activations) *)
 Theorem C04_call_activation_chain :
@@ -209,3 +210,10 @@ Theorem C04_block_scope_is_fresh :
          (forall i : nat, (i < b)%nat -> forall l : list nat, EnvLaws.chain s' i l -> ~ In b l).
 Proof. exact (@block_scope_is_fresh). Qed.
 Print Assumptions C04_block_scope_is_fresh.
+
+(** the counter factory, evaluated inside the kernel from its source text: two calls of the factory give two functions with separate variables that outlive the call (a() a() b() a() b() prints 1 2 1 3 2) *)
+Theorem C04_counter_factory :
+  printed (run_source libm_d (f_of_bits 0) sched_d 200 false counter_factory_src []) =
+         Some [[49]; [50]; [49]; [51]; [50]].
+Proof. exact (@counter_factory). Qed.
+Print Assumptions C04_counter_factory.
